@@ -1,6 +1,7 @@
 package checks
 
 import (
+	"math"
 	"fmt"
 	"math/big"
 	"strconv"
@@ -433,7 +434,9 @@ func runC18(w *eng.W) {
 		})
 	}
 	// bit operators
-	ints := []int64{0, 1, -1, 2, -2, 5, -5, 255, 256, 1 << 31, 1<<31 - 1, -(1 << 31), 1<<32 + 1, 1<<53 - 1, -(1<<53 - 1), 0x5555555555555, 0xAAAAAAAAAAAA, 1 << 40, 12345678901, -12345678901, 7, 8, 1023, 65535}
+	ints := []int64{0, 1, -1, 2, -2, 5, -5, 255, 256, 1 << 31, 1<<31 - 1, -(1 << 31), 1<<32 + 1, 1<<53 - 1, -(1<<53 - 1), 0x5555555555555, 0xAAAAAAAAAAAA, 1 << 40, 12345678901, -12345678901, 7, 8, 1023, 65535,
+		// beyond 2^53: the integer values are still exact int64 values
+		1<<53 + 1, -(1<<53 + 1), 1<<62 + 1, math.MaxInt64, math.MinInt64, math.MaxInt64 - 1, 0x5555555555555555, -0x5555555555555556, 1234567890123456789}
 	for _, a := range ints {
 		if !w.Take() {
 			continue
